@@ -731,10 +731,14 @@ class CInterp:
         for s1, c in conds:
             for s2, val in self.branch(s1, self.truth(c)):
                 if not val:
+                    if spec.get("on_exit"):
+                        spec["on_exit"](self, s2)
                     outs.append((s2, ("next",)))
                     continue
                 for s3, f in self.exec_stmt(body, s2):
                     if f[0] == "break":
+                        if spec.get("on_exit"):
+                            spec["on_exit"](self, s3)
                         outs.append((s3, ("next",)))
                     elif f[0] in ("next", "continue"):
                         ends = [s3]
